@@ -183,7 +183,9 @@ BadDataFamily == {BadDataProg(pos) : pos \in 1..2}
 \* pointer back only when the whole READ statement had succeeded)
 ReadSt(vs) == [op |-> "READ", vs |-> vs, col |-> TRUE]
 PartReadProg(why) ==
-    LET handler == Ln(500, <<Prt([k |-> "err"]), [op |-> "RESUME", w |-> "NEXT", n |-> 0, col |-> TRUE]>>)
+    \* (the handler also prints ERL: an error raised while READ assigns names the READ line, not the DATA line - round-4 seeded
+    \*  change C21d left the code pointer on the DATA item)
+    LET handler == Ln(500, <<Prt([k |-> "err"]), Prt([k |-> "erl"]), [op |-> "RESUME", w |-> "NEXT", n |-> 0, col |-> TRUE]>>)
         onerr   == Ln(5, <<[op |-> "ONERR", n |-> 500, col |-> TRUE]>>)
     IN  IF why = "ood"        \* three items read in pairs: the second READ runs out of DATA after delivering 13
         THEN P(<<onerr, Ln(10, <<DataSt(<<11, 12, 13>>)>>),
@@ -192,14 +194,14 @@ PartReadProg(why) ==
                  Ln(40, <<Prt(V("A"))>>),
                  Ln(50, <<ReadSt(<<"J">>), Prt(C(0))>>),
                  Ln(60, <<Prt(V("J")), EndS>>), handler>>,
-               [kind |-> "partread", expect |-> <<11, 12, 4, 0, 13, 4, 0, 12>>])
+               [kind |-> "partread", expect |-> <<11, 12, 4, 30, 0, 13, 4, 50, 0, 12>>])
         ELSE                 \* the second item does not fit the integer variable: Overflow; it stays unread and goes to A next
              P(<<onerr, Ln(10, <<DataSt(<<1, 40000, 3>>)>>),
                  Ln(20, <<ReadSt(<<"I", "K%">>), Prt(C(0))>>),
                  Ln(30, <<Prt(V("I")), Prt(V("K%"))>>),
                  Ln(40, <<ReadSt(<<"A">>), Prt(V("A"))>>),
                  Ln(50, <<ReadSt(<<"J">>), Prt(V("J")), EndS>>), handler>>,
-               [kind |-> "partread", expect |-> <<6, 0, 1, 0, 40000, 3>>])
+               [kind |-> "partread", expect |-> <<6, 20, 0, 1, 0, 40000, 3>>])
 PartReadFamily == {PartReadProg(why) : why \in {"ood", "ovf"}}
 \* READ into string variables: any item is taken as written; a name without type sign is the string variable while DEFSTR is in
 \* force for it and the numeric one otherwise, decided when the READ executes (round-3 seeded change C22c looked at the written
